@@ -805,7 +805,7 @@ def _nonneg(t, st, depth, memo):
             return nonneg(t.arg(1), st, depth + 1, memo) and nonneg(t.arg(2), st, depth + 1, memo)
         if k == z3.Z3_OP_IDIV:
             return nonneg(t.arg(0), st, depth + 1, memo) and nonneg(t.arg(1), st, depth + 1, memo)
-    if st is not None and depth <= 1:
+    if st is not None and depth <= 3:
         for f in st.pc[-80:]:
             if _states_nonneg(f, t):
                 return True
